@@ -152,10 +152,10 @@ PROPS["C10"] = dict(
     assumptions=["enableunsafedecode builds are not regenerated here; the opt-in fast path is exercised through lazyproto's fast mode and judged for panics only"],
     tests=[dict(name="TestC10Gen", pkg="c10", race=False, mem_gb=4,
                 quick=dict(workers=16, checks=1500, steps=20, watchdog_s=900),
-                thorough=dict(workers=16, checks=150000, steps=25, watchdog_s=7200)),
+                thorough=dict(workers=16, checks=300000, steps=25, watchdog_s=7200)),
            dict(name="TestC10Lazy", pkg="c10", race=False, mem_gb=4,
                 quick=dict(workers=16, checks=4000, steps=30, watchdog_s=900),
-                thorough=dict(workers=16, checks=400000, steps=40, watchdog_s=7200))],
+                thorough=dict(workers=16, checks=800000, steps=40, watchdog_s=7200))],
 )
 
 PROPS["C19"] = dict(
@@ -178,7 +178,7 @@ PROPS["C19"] = dict(
     assumptions=["nested values whose csproto.Marshal itself fails or panics (C04/C17-class pure-input defects) are skipped and counted, not judged"],
     tests=[dict(name="TestC19Hist", pkg="c19", race=False, mem_gb=4,
                 quick=dict(workers=16, checks=8000, steps=20, watchdog_s=900),
-                thorough=dict(workers=16, checks=600000, steps=20, watchdog_s=7200))],
+                thorough=dict(workers=16, checks=24000000, steps=20, watchdog_s=7200))],
 )
 
 PROPS["C11"] = dict(
@@ -226,7 +226,7 @@ PROPS["C12"] = dict(
     assumptions=["golang/protobuf's ExtensionDesc is an alias of protobuf-go's ExtensionInfo, so only gogo<->google descriptor pairs are real mismatches"],
     tests=[dict(name="TestC12Hist", pkg="c12", race=False, mem_gb=4,
                 quick=dict(workers=16, checks=3000, steps=30, watchdog_s=900),
-                thorough=dict(workers=16, checks=250000, steps=40, watchdog_s=7200))],
+                thorough=dict(workers=16, checks=1500000, steps=40, watchdog_s=7200))],
 )
 
 PROPS["C08"] = dict(
@@ -273,7 +273,7 @@ PROPS["C06"] = dict(
     assumptions=["agreement with the reference runtime on every legal encoding is not judged here (input space; see C08 for the accept/accept comparison on damaged inputs)"],
     tests=[dict(name="TestC06Hist", pkg="c06", race=False, mem_gb=4,
                 quick=dict(workers=16, checks=8000, steps=1, watchdog_s=900),
-                thorough=dict(workers=16, checks=600000, steps=1, watchdog_s=7200))],
+                thorough=dict(workers=16, checks=3000000, steps=1, watchdog_s=7200))],
 )
 
 PROPS["C20"] = dict(
